@@ -232,7 +232,7 @@ func genDigest19(t *rapid.T) []byte {
 }
 
 type fixture struct {
-	Scheme string    `json:"scheme"`
+	Scheme string `json:"scheme"`
 	N, T   int
 	Shares [][]byte  `json:"shares"`
 	Frames []emitted `json:"frames"` // key-generation frames captured when the fixture was made
@@ -366,7 +366,6 @@ func TestMakeFixtures(t *testing.T) {
 	}
 }
 
-
 // --- sender binding: a frame delivered under a transport sender that is not a member of the session has no effect ---------
 
 type c19BindCase struct {
@@ -470,5 +469,98 @@ func TestC19Bind(t *testing.T) {
 		members := []int{a, b, cc}
 		out := rapid.IntRange(0, cc+5).Filter(func(x int) bool { return x != a && x != b && x != cc }).Draw(t, "outsider")
 		return c19BindCase{Members: members, Absent: rapid.IntRange(0, 2).Draw(t, "absent"), Outsider: out}
+	}}.Main(t)
+}
+
+// --- sender binding, ECDSA: frames under a transport sender that is not a member must not disturb a complete session ----
+
+type c19BindECase struct {
+	Outsider int // transport sender that is not a member (the fixture's members are 1..N): 0 lies below every member
+	Every    int // a foreign copy follows every Every-th genuine delivery
+	Digest   []byte
+}
+
+func runC19BindECDSA(c c19BindECase) *vh.Outcome {
+	o := &vh.Outcome{NonTrivial: true, Key: fmt.Sprintf("%+v", c)}
+	fx, err := loadFixture("ecdsa", 2, 1)
+	if err != nil {
+		o.Discard = "no-fixture"
+		return o
+	}
+	// donor frames: a complete signing session of the same parties on another digest
+	donor := newSession("ecdsa", 2, 1, "signing")
+	other := append([]byte{0x5A}, c.Digest[1:]...)
+	if _, _, err := donor.sign(fx.Shares, other, 2*time.Minute); err != nil {
+		o.Discard = "donor-session-failed"
+		return o
+	}
+	byType := map[string][]emitted{}
+	for _, f := range donor.frames {
+		byType[typeURL(f.Bytes)] = append(byType[typeURL(f.Bytes)], f)
+	}
+	// the session under test: every genuine delivery may be followed by a frame of the same type from the donor session,
+	// delivered under the non-member transport sender
+	ids := []uint16{1, 2}
+	parties := []adapter{newAdapter("ecdsa", 1), newAdapter("ecdsa", 2)}
+	var mu sync.Mutex
+	count, foreign := 0, 0
+	for i, p := range parties {
+		from := ids[i]
+		p.Init(ids, 1, func(msg []byte, bc bool, to uint16) {
+			for j, q := range parties {
+				if ids[j] == from || !(bc || ids[j] == to) {
+					continue
+				}
+				q.OnMsg(msg, from, bc)
+				mu.Lock()
+				count++
+				inject := count%c.Every == 0
+				mu.Unlock()
+				if inject {
+					if ds := byType[typeURL(msg)]; len(ds) > 0 {
+						q.OnMsg(ds[count%len(ds)].Bytes, uint16(c.Outsider), bc)
+						mu.Lock()
+						foreign++
+						mu.Unlock()
+					}
+				}
+			}
+		})
+		if err := p.SetShareData(fx.Shares[i]); err != nil {
+			o.Discard = "share-unusable"
+			return o
+		}
+	}
+	ctx, cancel := context.WithTimeout(context.Background(), 40*time.Second)
+	defer cancel()
+	sigs := make([][]byte, 2)
+	errs := make([]error, 2)
+	var wg sync.WaitGroup
+	for i, p := range parties {
+		i, p := i, p
+		wg.Add(1)
+		go func() { defer wg.Done(); sigs[i], errs[i] = p.Sign(ctx, c.Digest) }()
+	}
+	wg.Wait()
+	o.Info = map[string]interface{}{"foreign_frames": foreign, "genuine_deliveries": count}
+	pk, _ := parties[0].ThresholdPK()
+	for i := range parties {
+		if errs[i] != nil {
+			o.Fail = vh.Failf("C19/sender-binding/ecdsa", "a complete signing session of parties 1,2 failed on party %d (%v) after %d frames of another session were delivered under transport sender %d, which is not a member: they were consumed under a member's identity", ids[i], errs[i], foreign, c.Outsider)
+			return o
+		}
+		if !verifySig("ecdsa", pk, c.Digest, sigs[i]) {
+			o.Fail = vh.Failf("C19/sender-binding/ecdsa", "party %d returned a signature that does not verify after %d frames were delivered under non-member transport sender %d", ids[i], foreign, c.Outsider)
+			return o
+		}
+	}
+	return o
+}
+
+func TestC19BindECDSA(t *testing.T) {
+	vh.Prop[c19BindECase]{ID: "C19", Test: "TestC19BindECDSA", Run: runC19BindECDSA, Gen: func(t *rapid.T) c19BindECase {
+		d := rapid.SliceOfN(rapid.Byte(), 32, 32).Draw(t, "digest")
+		d[0] |= 1
+		return c19BindECase{Outsider: rapid.SampledFrom([]int{0, 0, 3, 7, 65535}).Draw(t, "outsider"), Every: rapid.IntRange(1, 3).Draw(t, "every"), Digest: d}
 	}}.Main(t)
 }
